@@ -20,6 +20,7 @@ PROPS = {
     },
     "C02": {
         "claimed": True,
+        "po": ["--frac", "2"],
         "technique": "reference-model monitor: constructive expected tree from the document generator + independent reference decoder, compared with five observers of the real decoders",
         "level_text": "for every accepted text five observers of the real code (DocumentMut walk, ImDocument walk, toml::from_str into Table and Value, toml_edit::de) are converted to plain trees and compared, scalar by scalar and key order included, with the tree the generator built the text from and with the reference decoder's tree; exhaustive sub-sweeps cover \\uXXXX for every BMP scalar, continuation sequences, closing-quote cases, underscore placements, fractional-second lengths; float halfway literals are judged by exact big-integer rounding",
         "level_note": "trusted: reference decoder R and its big-integer float rounding (cross-checked with the constructive oracle on every rendered document; disagreement is INCONCLUSIVE). Latitude per DESIGN 3.5 only",
@@ -108,10 +109,19 @@ PROPS = {
     },
     "C16": {
         "claimed": True,
+        "po": ["--only", "toml::Map"],
         "technique": "history monitor with an executable reference model: random call histories on each container are replayed against a plain ordered map / vector and every return value and a full observation are compared after every call",
         "level_text": "histories of 1-60 calls with keys from a 4-letter alphabet (frequent collisions) on Table, InlineTable, both behind dyn TableLike, Array, ArrayOfTables and toml::Map (sorted build and, in a second phase, the preserve_order build) are executed against the real containers and against a Vec-backed reference; after every call the return value and len/is_empty/iter/into_iter/get/contains_key/get_key_value for every key and the decoded printed text are compared; placeholders left by mutable indexing must stay invisible",
         "level_note": "trusted: the reference ordered map (about 150 lines). Tolerances: Some(Item::None) reads as absent; the position of a placeholder that is filled later is not compared",
         "rule": "cases: random call histories per container type (insert, insert_formatted, remove, remove_entry, get_mut, entry or_insert/or_insert_with/insert/remove, entry_format, get_or_insert, retain, sort_values(_by), clear, mutable indexing read/assign/nested assign, extend, iter_mut, key; push/insert/replace/remove/retain/sort/extend for arrays). distinct = history hash; all non-trivial",
+        "assumptions": COMMON,
+    },
+    "C20": {
+        "claimed": True,
+        "technique": "trace monitor: a recording visitor logs (method, node address) for every callback and the log is compared, as a sequence, with an independent pre-order walk through public accessors; rewriting visitors are compared with a model transform of the decoded tree",
+        "level_text": "for every parsed (corpus, rendered) and API-built document the default Visit and VisitMut walks are recorded by visitors that override all 14 methods and delegate; the recorded sequence of (method, node address, key) must equal the sequence an independent walk through iter()/as_*/get_key_value produces - exactly once per node, in document order; a VisitMut that rewrites every scalar of one type must be called once per such scalar and yield exactly the model transform of the tree, also after print and re-parse",
+        "level_note": "trusted: the independent walk (public accessors only). Document order = the order iter() yields, which is what the printer uses",
+        "rule": "cases: corpus documents, rendered documents (nested arrays / inline tables / arrays of tables / dotted and implicit tables), API-built documents; one of five scalar types rewritten per case. distinct = printed text hash; non-trivial = documents with at least 8 callbacks",
         "assumptions": COMMON,
     },
 }
